@@ -5,7 +5,12 @@ From AGH Require Import Base.Run.
 From AGH Require Export Model.ClientIndex Model.LogPolicy.
 Local Open Scope N_scope.
 
-Definition mkc := Build_client.
+(** The harness prints persistent clients with the fields the logging stage can
+    depend on; blocked services, tags and upstream lines are always absent. *)
+Definition mkc u n cids ips nets macs (own fl ss sb pa ob : bool) (bl : option (list bytes)) (iq is_ : bool) : client :=
+  Build_client u n cids ips nets macs own fl ss sb pa ob None iq is_ [] [].
+(** client.StorageConfig of the harness: no allowed tags; no upstream line is ever validated. *)
+Definition c08_cfg : config := {| cfg_tags := []; cfg_addr_ok := fun _ => true |}.
 Definition mkq := Build_query.
 
 Inductive sev :=
@@ -78,7 +83,7 @@ Definition step_ok refuse sign macs (r : rstate) (e : sev) : rstate * bool :=
       ({| r_ix := r_ix r; r_dhcp := r_dhcp r; r_conf := r_conf r; r_qign := r_qign r;
           r_st := process (env_of refuse sign r) q (r_st r) |}, true)
   | SOp o =>
-      ({| r_ix := fst (step (r_ix r) o); r_dhcp := r_dhcp r; r_conf := r_conf r; r_qign := r_qign r;
+      ({| r_ix := fst (step c08_cfg (r_ix r) o); r_dhcp := r_dhcp r; r_conf := r_conf r; r_qign := r_qign r;
           r_st := r_st r |}, true)
   | SDhcp t =>
       ({| r_ix := r_ix r; r_dhcp := t; r_conf := r_conf r; r_qign := r_qign r; r_st := r_st r |}, true)
@@ -124,7 +129,7 @@ Definition case_ok (c : case) : bool :=
       let '(r, ok) := replay refuse sign macs (init_state anon qign) evs in
       ok && final_ok (env_of refuse sign r) (fun c => bget c macs) (r_st r) of od oc ot
   | CFinder ops dhcp ids oq oc =>
-      let ix := run ops empty_index in
+      let ix := run c08_cfg ops empty_index in
       Bool.eqb (qlog_client_ignored ix (fun a => zget a dhcp) ids) oq &&
       Bool.eqb (stats_client_counted ix (fun a => zget a dhcp) ids) oc
   end.
@@ -137,6 +142,6 @@ Definition explain (c : case) :=
       let '(r, ok) := replay refuse sign macs (init_state anon qign) evs in
       (ok, map canon_entry (st_file (r_st r) ++ st_mem (r_st r)), st_stats (r_st r))
   | CFinder ops dhcp ids _ _ =>
-      let ix := run ops empty_index in
+      let ix := run c08_cfg ops empty_index in
       (qlog_client_ignored ix (fun a => zget a dhcp) ids, [], [([], [], if stats_client_counted ix (fun a => zget a dhcp) ids then [1] else [0])])
   end.
